@@ -169,14 +169,14 @@ func initCollection() {
 		"drop",
 		func(vm *Thread, args []value.Value) (returnVal value.Value, err value.Value) {
 			self := args[0]
-			count := args[1].AsInt()
+			count, negative := iterableCountArgument(args[1])
 
-			if count < 0 {
+			if negative {
 				return value.Undefined, value.Ref(
 					value.Errorf(
 						value.OutOfRangeErrorClass,
-						"tried to drop a negative amount of values `%d` from an iterable",
-						count,
+						"tried to drop a negative amount of values `%s` from an iterable",
+						args[1].Inspect(),
 					),
 				)
 			}
@@ -243,31 +243,35 @@ func initCollection() {
 		"take",
 		func(vm *Thread, args []value.Value) (returnVal value.Value, err value.Value) {
 			self := args[0]
-			count := args[1].AsInt()
+			count, negative := iterableCountArgument(args[1])
 
-			if count < 0 {
+			if negative {
 				return value.Undefined, value.Ref(
 					value.Errorf(
 						value.OutOfRangeErrorClass,
-						"tried to take a negative amount of values `%d` from an iterable",
-						count,
+						"tried to take a negative amount of values `%s` from an iterable",
+						args[1].Inspect(),
 					),
 				)
 			}
 			var result value.ArrayListOfValue
+
+			if count == 0 {
+				return value.Ref(&result), value.Undefined
+			}
 
 			for elem, err := range Iterate(vm, self) {
 				if !err.IsUndefined() {
 					return value.Undefined, err
 				}
 
+				result.Append(elem)
+				count--
+				// stop before pulling an element that would not be taken:
+				// the iterable may be a channel, a generator or an iterator
 				if count <= 0 {
 					break
 				}
-
-				count--
-				result.Append(elem)
-				continue
 			}
 
 			return value.Ref(&result), value.Undefined
